@@ -2,6 +2,7 @@
 from engine_eliot import *
 
 ALLF = {"typed", "tb", "task", "finish", "ctx", "run", "alog", "succ", "ext", "remote"}
+HOST = ALLF | {"hostile"}
 
 # per property: model-checking configs (quick, with thorough overrides), simulation sources, random profiles
 PLAN = {
@@ -25,10 +26,13 @@ PLAN = {
         profiles=[dict(feat={"finish", "succ", "ext", "ctx", "run", "typed", "task", "alog"}, ndest=2, init=[1, 2], maxlen=40,
                        weights={"Exit": 4.0, "Finish": 1.0})]),
     "C04": dict(
-        mc=[("MC_Scope.cfg", {"MaxActs": 3, "MaxMsgs": 4, "MaxBlocks": 4}), ("MC_Core.cfg", {})],
+        mc=[("MC_Scope.cfg", {"MaxActs": 3, "MaxMsgs": 4, "MaxBlocks": 4}), ("MC_Core.cfg", {}), ("MC_Abort.cfg", {"MaxMsgs": 5})],
         sim=[("MC_Scope.cfg", [1], 1, {"MaxActs": 4, "MaxMsgs": 8, "MaxBlocks": 6, "MaxDepth": 4, "Feat": '{"finish", "ctx", "run", "task", "ext"}'})],
         profiles=[dict(feat={"finish", "ctx", "run", "task", "ext"}, ndest=1, init=[1], maxlen=45, maxblocks=10,
-                       weights={"EnterCtx": 1.5, "EnterRun": 1.5, "EnterWith": 2.0, "Exit": 2.5})]),
+                       weights={"EnterCtx": 1.5, "EnterRun": 1.5, "EnterWith": 2.0, "Exit": 2.5}),
+                  # destinations failing -- also with non-Exception exceptions that reach the application -- while blocks exit
+                  dict(feat={"finish", "ctx", "run", "task", "ext"}, ndest=2, init=[1, 2], maxlen=40, maxblocks=8, dfault=0.15, abort=0.12,
+                       weights={"EnterCtx": 1.5, "EnterRun": 1.5, "EnterWith": 2.5, "Exit": 2.5})]),
     "C05": dict(
         mc=[("MC_Conc.cfg", {"MaxMsgs": 5, "MaxActs": 3})],
         sim=[("MC_Conc.cfg", [1], 1, {"NCtx": 4, "MaxActs": 5, "MaxMsgs": 10, "MaxBlocks": 3, "MaxDepth": 3, "Feat": '{"spawn", "ctx", "run", "finish"}'})],
@@ -36,13 +40,15 @@ PLAN = {
     "C07": dict(
         mc=[("MC_Faults.cfg", {"MaxMsgs": 5}), ("MC_Typed.cfg", {"MaxMsgs": 5})],
         sim=[("MC_Typed.cfg", [1, 2], 2, {"NDest": 2, "MaxActs": 3, "MaxMsgs": 8, "MaxFaults": 5, "InitDests": "D12",
-                                          "Feat": '{"typed", "sfault", "dfault", "succ", "finish", "ext", "tb", "ctx"}'})],
-        profiles=[dict(feat=ALLF, ndest=3, init=[1, 2, 3], dfault=0.3, sfault=0.3, maxlen=40, fault_file=True)]),
+                                          "Feat": '{"typed", "sfault", "dfault", "succ", "finish", "ext", "tb", "ctx", "hostile"}'})],
+        profiles=[dict(feat=HOST, ndest=3, init=[1, 2, 3], dfault=0.3, sfault=0.3, maxlen=40, fault_file=True),
+                  dict(feat=HOST | {"dests"}, ndest=3, init=[], dfault=0.3, sfault=0.2, maxlen=40, fault_file=True)]),
     "C08": dict(
         mc=[("MC_Faults.cfg", {"MaxMsgs": 5}), ("MC_Faults.cfg", {"NDest": 3, "InitDests": "D123", "MaxFaults": 3})],
         sim=[("MC_Faults.cfg", [1, 2, 3, 4], 4, {"NDest": 4, "MaxActs": 3, "MaxMsgs": 8, "MaxFaults": 6, "InitDests": "D1234",
                                                  "Feat": '{"finish", "ctx", "dfault", "task"}'})],
-        profiles=[dict(feat={"finish", "ctx", "task", "tb"}, ndest=4, init=[1, 2, 3, 4], dfault=0.35, maxlen=30, fault_file=True)]),
+        profiles=[dict(feat={"finish", "ctx", "task", "tb"}, ndest=4, init=[1, 2, 3, 4], dfault=0.35, maxlen=30, fault_file=True),
+                  dict(feat={"finish", "ctx", "task", "dests"}, ndest=4, init=[], dfault=0.3, maxlen=30, fault_file=True)]),
     "C12": dict(
         mc=[("MC_Dests.cfg", {"NDest": 3, "MaxMsgs": 3})],
         sim=[("MC_Dests.cfg", [], 3, {"NDest": 3, "MaxActs": 2, "MaxMsgs": 9, "Cap": 3, "Feat": '{"dests", "dfault", "finish"}', "MaxFaults": 2})],
